@@ -225,10 +225,17 @@ func check(c *pbt.Case, r *pbt.R) {
 		r.Failf("%+v does not have one entry per layer of a multi-cause tree", "entries %d layers %d\n%s\n%s", len(pv.Entries), len(vis), c.Spec, out)
 	}
 
-	// Transfer.
+	// Transfer. (Not for the multi-cause type that also has a Cause()
+	// method: the library sends it as a wrapper around that single cause,
+	// so its other branches do not travel - the reason why such types
+	// are outside the transfer properties, DESIGN 2.2.)
 	want := obs.Shape(e).Str(false)
 	cur := wire.Encode(e)
-	for i := 1; i <= c.Int("hops"); i++ {
+	hops := c.Int("hops")
+	if c.Spec.Has("umulticauser") {
+		hops = 0
+	}
+	for i := 1; i <= hops; i++ {
 		var unknown []string
 		switch c.S["receiver"] {
 		case "unknowing-all":
@@ -256,6 +263,25 @@ func check(c *pbt.Case, r *pbt.R) {
 		check := func(at string, x error) {
 			if got := obs.Shape(x).Str(false); got != want {
 				r.Failf("branch count, order or per-branch text differs after transfer ("+at+")", "hop %d\nwant:\n%s\ngot:\n%s\n%s", i, want, got, c.Spec)
+			}
+			// %+v shows every branch there too, through the received
+			// error's own Format method and through Formattable.
+			outs := []string{fmt.Sprintf("%+v", errbase.Formattable(x))}
+			if _, ok := x.(fmt.Formatter); ok {
+				outs = append(outs, fmt.Sprintf("%+v", x))
+			}
+			for _, out := range outs {
+				seen := map[string]bool{}
+				for _, tk := range tokRe.FindAllString(out, -1) {
+					seen[tk] = true
+				}
+				for _, v := range vis {
+					for _, tk := range tokRe.FindAllString(v.Obj.Error(), -1) {
+						if !seen[tk] {
+							r.Failf("%+v does not show the text of every branch after transfer ("+at+")", "token %s of layer %T missing\n%s\n%s", tk, v.Obj, c.Spec, out)
+						}
+					}
+				}
 			}
 		}
 		if len(unknown) > 0 {
